@@ -134,6 +134,36 @@ def runXk (c : Cache) (netsS rootS opsS : String) : Option (String × Cache) := 
     out := out ++ "/" ++ o
   pure ("ok " ++ out, c)
 
+/-- `xk.sweep`: for each normal index the public key (and parent fingerprint) of Neuter(Child_i(m)) and of
+Child_i(Neuter(m)) -/
+def runXkSweep (seedS netS fromS countS : String) (netsS : List Net) : Option String := do
+  let seed ← unhex seedS; let n ← netS.toNat?; let from_ ← fromS.toNat?; let count ← countS.toNat?
+  let net ← netsS[n]?
+  let reg : Bip32.Registry := netsS.map fun n => (n.hdPriv, n.hdPub)
+  match Bip32.newMaster pr seed net.hdPriv with
+  | .error _ => pure "err"
+  | .ok m =>
+    match Bip32.neuter reg m with
+    | .error _ => pure "err"
+    | .ok pm =>
+      let keyOf := fun (k : Except Bip32.Err Bip32.XKey) =>
+        match k with
+        | .error _ => "e"
+        | .ok k => match Bip32.ecPubKey k with
+          | some q => hx (Ecdsa.serCompressed q) ++ "." ++ nhx (Bip32.parentFingerprint k)
+          | none => "x" ++ hx (Bip32.toString pr k)
+      let parts := (List.range count).map fun j =>
+        let i := from_ + j
+        let a1 := match Bip32.child pr m i with
+          | .error _ => "e"
+          | .ok c => keyOf (Bip32.neuter reg c)
+        " " ++ a1 ++ ":" ++ keyOf (Bip32.child pr pm i)
+      pure ("ok" ++ String.join parts)
+
+/-- the fixed network table of the harness (every xk line carries it; `xk.sweep` lines do not) -/
+def defaultNets : List Net := [
+  ⟨0x00, [0x04,0x88,0xad,0xe4], [0x04,0x88,0xb2,0x1e]⟩, ⟨0x6f, [0x04,0x35,0x83,0x94], [0x04,0x35,0x87,0xcf]⟩ ]
+
 /-! ### dispatcher -/
 def optBytes (s : String) : Option (Option Bytes) :=
   if s == "nil" then some none else (unhex s).map some
@@ -241,6 +271,15 @@ def runOp (op : String) (a : List String) : Option String :=
   | "bip39.seed", [w, p] => do
     let w ← unhex w; let p ← unhex p
     pure (match Bip39.mnemonicToSeed pr w p with | some s => "ok " ++ hx s | none => "err")
+  | "bip39.seq", [e, phs] => do
+    let e ← unhex e
+    let phs ← (phs.splitOn ",").mapM unhex
+    -- every call is the pure function of its own arguments
+    match Bip39.mnemonic pr e [] with
+    | none => pure "err"
+    | some (m, _) =>
+      let seeds := phs.map fun p => pr.pbkdf2_512 m (Bip39.mnemonicSalt p) 2048 64
+      pure ("ok" ++ String.join (seeds.map fun s => " " ++ hx s))
   | "dpath.fwd", [i] => do let i ← i.toNat?; pure ("ok " ++ hx (Bip32.derivePath (UInt64.ofNat i)))
   | "dpath.back", [p] => do
     let p ← unhex p
@@ -249,6 +288,24 @@ def runOp (op : String) (a : List String) : Option String :=
     let p ← unhex p; let sg ← optBytes sg; let pk ← optBytes pk; let m ← unhex m
     pure (match Envelope.isValid pr p sg pk m with
       | .valid => "ok 1" | .invalid => "ok 0" | .error => "err")
+  | "env.seq", [p, sg, pk, m, steps] => do
+    -- every validation is the pure function of the fields at that moment
+    let p ← unhex p; let sg ← unhex sg; let pk ← unhex pk; let m ← unhex m
+    let mut st : Bytes × Bytes × Bytes × Bytes := (p, sg, pk, m)
+    let mut out := "ok"
+    for s in steps.splitOn "," do
+      if s == "v" then
+        out := out ++ (match Envelope.isValid pr st.1 (some st.2.1) (some st.2.2.1) st.2.2.2 with
+          | .valid => " 1" | .invalid => " 0" | .error => " e")
+      else
+        let v ← unhex (s.drop 2).toString
+        match (s.take 2).toString with
+        | "p:" => st := (v, st.2.1, st.2.2.1, st.2.2.2)
+        | "s:" => st := (st.1, v, st.2.2.1, st.2.2.2)
+        | "k:" => st := (st.1, st.2.1, v, st.2.2.2)
+        | "m:" => st := (st.1, st.2.1, st.2.2.1, v)
+        | _ => none
+    pure out
   | "env.new", [pl, t] => do
     let pl ← unhex pl; let t ← untape t
     pure (match Envelope.newEnvelope pr nonceFuel pl t with
@@ -281,6 +338,11 @@ partial def loop (hin hout : IO.FS.Stream) (c : Cache) : IO Unit := do
     match runXk c nets root ops with
     | some (r, c') => hout.putStrLn r; loop hin hout c'
     | none => hout.putStrLn "bad-op"; loop hin hout c
+  | ["xk.sweep", seed, net, from_, count] =>
+    (match runXkSweep seed net from_ count defaultNets with
+     | some r => hout.putStrLn r
+     | none => hout.putStrLn "bad-op")
+    loop hin hout c
   | op :: args =>
     match runOp op args with
     | some r => hout.putStrLn r
